@@ -89,7 +89,8 @@ def _probe_cfg(rng, shared, big):
     c['dtypes']['times'] = rng.choice(['uint64', 'int64'])
     c['dtypes']['find'] = rng.choice(['uint32', 'int32', 'int64'])
     c['dtypes']['chmap'] = rng.choice(['int32', 'uint32', 'int64'])
-    c['dtypes']['tmpl'] = shared['tmpl']
+    c['dtypes']['tmpl'] = shared['tmpl'] if rng.random() < 0.8 else \
+        {'float32': 'float64', 'float64': 'float32'}[shared['tmpl']]
     c['unused_templates'] = []
     if c['nt'] >= 3 and rng.random() < 0.4:
         un = set(rng.sample(range(c['nt']), rng.randint(1, max(1, c['nt'] // 3))))
@@ -113,7 +114,7 @@ def _probe_cfg(rng, shared, big):
 
 
 def _shared(rng):
-    return {'nsw': rng.randint(2, 8), 'sr': rng.choice([1000.0, 30000.0]), 'npcs': 3,
+    return {'nsw': rng.randint(2, 8), 'sr': rng.choice([1000.0, 30000.0, 29999.954846, 2500.0006]), 'npcs': 3,
             'nloc_f': rng.randint(2, 4), 'nloc_tf': rng.randint(2, 3),
             'tmpl': rng.choice(['float32', 'float32', 'float64']),
             'wm': rng.random() < 0.7, 'wmi': rng.random() < 0.3, 'similar': rng.random() < 0.7}
@@ -130,7 +131,7 @@ def gen(rng, prop, tier):
         k = rng.choice([1, 2, 2, 3, 3, 4]) if prop != 'C12' else rng.choice([1, 2, 3, 3, 4, 4])
         shared = _shared(rng)
         cfg['probes'] = [_probe_cfg(rng, shared, big) for _ in range(k)]
-        naming = rng.choice(['indexed', 'sides', 'unpadded'])
+        naming = rng.choice(['indexed', 'sides', 'unpadded', 'same_leaf'])
         for c in cfg['probes']:
             c['dir_naming'] = naming
         if rng.random() < (0.03 if big else 0.012):
@@ -147,6 +148,11 @@ def gen(rng, prop, tier):
                 c['unused_templates'] = [t for t in c['unused_templates'] if t < c['nt']]
                 if len(c['unused_templates']) >= c['nt'] - 1:
                     c['unused_templates'] = []
+        if k >= 2 and rng.random() < (0.02 if big else 0.01):
+            # id files of 64 KiB and more (readers switch to memory mapping for large files)
+            c = cfg['probes'][rng.randrange(1, k)]
+            c['ns'] = rng.choice([8200, 16400, 17000])
+            c['ties'] = True
         ops = [{'op': 'merge'}]
         if rng.random() < 0.2:
             ops.append({'op': 'merge_again'})   # the same Merger instance run a second time
@@ -180,6 +186,10 @@ def gen(rng, prop, tier):
                    'pre_store': False}
     if p['raw'] and rng.random() < 0.3:
         d['extras']['pre_store'] = True
+    if prop == 'C13' and d['unused_templates'] and rng.random() < 0.35:
+        # KiloSort leaves all-NaN templates for unused ids; the loader zeroes them in memory
+        d['poison'].append({'name': 'tmpl', 'kind': 'nan_template',
+                            'ids': d['unused_templates'][:2]})
     cfg['dataset'] = d
     cfg['knobs']['nsample_waveforms'] = rng.choice([1, 3, 10, 500])
     if rng.random() < 0.6:
@@ -334,7 +344,7 @@ class Probe(object):
         self.cfg = cfg
         g = world.build_gt(cfg)
         # unique amplitude tag: identifies (probe, original spike index) in the merged output
-        g.amps = index * 10000.0 + np.arange(cfg['ns']) + 0.5
+        g.amps = index * 1000000.0 + np.arange(cfg['ns']) + 0.5
         # raw channel map (no raw file is written; params declare n_channels_dat)
         rs = np.random.RandomState((cfg['seed'] + 17) % (2 ** 32))
         n_dat = cfg['nc'] + cfg['raw_channels_extra']
@@ -347,6 +357,8 @@ class Probe(object):
             name = ['imec_right', 'imec_left', 'imec_mid', 'imec_far'][index % 4]
         elif naming == 'unpadded':   # probe9, probe10, probe11, probe12: 'probe10' < 'probe9'
             name = 'probe%d' % (index + 9)
+        elif naming == 'same_leaf':  # imec0/ks2, imec1/ks2, ...: every probe folder has the same name
+            name = 'imec%d/ks2' % index
         else:
             name = 'probe%d' % index
         self.dir = root / name
@@ -398,7 +410,7 @@ def check_merge(ctx, probes, out, model):
         for i, t in enumerate(p.g.samples):
             keys.append((int(t), p.index, i))
     keys.sort()
-    got_pi = [(int(a // 10000), int(round(a - (a // 10000) * 10000 - 0.5))) for a in amps]
+    got_pi = [(int(a // 1000000), int(round(a - (a // 1000000) * 1000000 - 0.5))) for a in amps]
     cnt = {}
     for t, pi, i in keys:
         cnt[t] = cnt.get(t, set()) | {pi}
@@ -625,7 +637,7 @@ def _find(out, base, label):
 
 
 def check_export_structure(ctx, model, src_dir, out, op, before_src, n_probes, out_model,
-                           memo=None):
+                           memo=None, written=None):
     """C13."""
     label = op['label']
     ns, nt, nc = model.n_spikes, model.n_templates, model.n_channels
@@ -705,6 +717,15 @@ def check_export_structure(ctx, model, src_dir, out, op, before_src, n_probes, o
     ctx.check(not (set(modified) - store), 'source-file-modified',
               lambda: {'modified': modified})
     ctx.check(set(created) <= store, 'source-file-created', lambda: {'created': created})
+    if written is not None:
+        # ... and since the directory was written, i.e. including what LOADING it did: every file
+        # the sorter wrote is still byte-identical (the assignments may have been re-saved by a
+        # curation step of the history)
+        changed = sorted(f for f, h in written.items()
+                         if f in after_src and after_src[f] != h
+                         and f not in store and f != 'spike_clusters.npy')
+        ctx.check(not changed, 'source-file-modified',
+                  lambda: {'modified_since_written': changed})
     # reload of the output
     if out_model is not None:
         ctx.check(ref.close(out_model.spike_times, model.spike_times, 1e-12)
@@ -938,6 +959,7 @@ def run_ops(plan, ctx, cfg):
     model = None
     merger = None
     src_dir = None
+    src_written = None
     orig_maps = None
     out_models = {}
     creators = {}
@@ -989,6 +1011,9 @@ def run_ops(plan, ctx, cfg):
         if (d['nt'] - 1) in d['unused_templates']:
             ctx.probe('highest_template_unused')
         ctx.op('write_dataset')
+        src_written = world.snapshot(src_dir)
+        if d.get('poison'):
+            ctx.probe('all_nan_template_in_source')
 
     for step, op in enumerate(plan['ops']):
         k = op['op']
@@ -1118,7 +1143,8 @@ def run_ops(plan, ctx, cfg):
                 ctx.probe('no_features')
             if prop == 'C13':
                 check_export_structure(ctx, model, src_dir, out, op, before, n_probes, out_model,
-                                       memo=export_memo)
+                                       memo=export_memo,
+                                       written=src_written if probes is None else None)
             elif prop == 'C14':
                 check_export_values(ctx, model, out, op, orig_maps,
                                     src_gt if probes is None else None)
